@@ -124,8 +124,7 @@ func (x *Exec) materialise(t types.Type, term Term, st *State, depth int) (*matV
 		if depth > 2 {
 			return nil, nil
 		}
-		es := x.sortOf(u.Elem())
-		h := x.heap(st, es)
+		h := x.heap(st, u.Elem())
 		ln, base := sLen(term).S, sBase(term).S
 		qs := []string{ln, base}
 		bound := []string{fmt.Sprintf("(bvule %s %s)", ln, bv64(replaySliceMax).S)}
